@@ -141,7 +141,9 @@ CLAIMED['C05'] = dict(
           'rng stream at each call of a jitted child (key identities relative to the forked key); everything else must be exactly the plain '
           'semantics. Replay is three-way: specification, lifted real run (transformed classes created once so trace caches persist across '
           'behaviours and repeated calls), plain real run of the same program; plus whole-body nn.cond / nn.switch wraps at apply time. '
-          'Method-decorator lifts and nn.while_loop: LinenSetup.tla. Not exercised: non-default variables/rngs lifting filters.'),
+          'Method-decorator lifts and nn.while_loop: LinenSetup.tla. The trace cache of a lifted class (entries compared by fingerprint, not by '
+          'hash; two applies, the second one only hits): LiftCache.tla, with a refuted hash-only configuration as self-test. '
+          'Not exercised: non-default variables/rngs lifting filters.'),
     technique='TLA+ state machine with lifted children + TLC; spec->code replay with the plain program as second oracle',
     design_ref='3/C05')
 
